@@ -29,6 +29,7 @@ func runC08(c *Ctx) {
 	c.rule("make-nonneg", "every non-constant make() length/capacity in the root package is built from len/cap terms without subtraction", 2)
 	c.rule("reply-capacity", "channels carrying a single reply (value-update reply, verification-enable reply) are made with constant capacity >= 1 and get exactly one answer per request on every path", 3)
 	c.rule("goroutine-exit", "every blocking channel operation of the monitor has a <-ctx.Done() arm that returns; every blocking operation of the callback loop includes a receive on a shutdown channel that the monitor closes in a deferred call at its entry", 3)
+	c.rule("shutdown-checked-first", "a caller-goroutine function that blocks on a send to the callback queue first polls the monitor's shutdown channel without blocking and fails when it is closed (a select between a closed channel and a send on a buffered queue picks at random, so a call issued after shutdown would report success half the time)", 1)
 	c.rule("cbloop-drains", "the callback loop's exit is the drained-queue exit (non-blocking receive found nothing), so it neither leaks nor drops queued unregister acknowledgements while alive", 1)
 	c.rule("goroutines-lock-free", "functions reachable from the monitor and callback roots acquire no mutex and invoke no Source/Watcher/Decoder method", 2)
 	c.rule("lock-pairing", "every Mutex.Lock in the repository is immediately followed by a deferred Unlock of the same mutex", 4)
@@ -224,6 +225,7 @@ func runC08(c *Ctx) {
 			c.check(nn > 0, "blank-own-ctx", relName(f)+"#ctx", f.Pos(), "blocking calls are bounded by the method's own context argument", "no WatchArgs/Source call found")
 		}
 	}
+	c08ShutdownFirst(c, k)
 }
 
 // apiReaches: f is reachable (synchronously) from an exported function/method.
@@ -618,5 +620,48 @@ func c08Exit(c *Ctx, k *core) {
 		if u, ok := i.(*ssa.UnOp); ok && u.Op == token.ARROW {
 			c.bad("goroutine-exit", relName(f)+"#bare-recv", u.Pos(), "bare receive in the callback loop (needs the queue to be closed to exit)")
 		}
+	}
+}
+
+// c08ShutdownFirst: blocking sends on the callback queue from caller goroutines
+// are preceded by a non-blocking poll of the monitor's shutdown channel.
+func c08ShutdownFirst(c *Ctx, k *core) {
+	w := c.W
+	fMonDone := w.field("", "Dials", "monDone")
+	if !c.need(fMonDone != nil, "dials.Dials.monDone") {
+		return
+	}
+	n := 0
+	for _, f := range w.funcsIn("") {
+		for _, op := range chanOps(f) {
+			if !op.Send || !op.Blocking || !chanIsField(op.Chan, k.fCbch) || op.Sel == nil {
+				continue
+			}
+			// only caller-goroutine functions (the monitor must not block on this queue at all: other rule)
+			n++
+			c.analysed(relName(f))
+			okP := false
+			for _, p := range chanOps(f) {
+				if p.Sel == nil || p.Sel.Blocking || p.Send || !chanIsField(p.Chan, fMonDone) || !domI(p.Sel, op.Sel) {
+					continue
+				}
+				// the ready arm returns a failure (false)
+				arm := selectArm(p.Sel, p.StateIdx)
+				if arm == nil {
+					continue
+				}
+				for _, i := range arm.Instrs {
+					if r, ok := i.(*ssa.Return); ok && len(r.Results) == 1 {
+						if cst, ok := r.Results[0].(*ssa.Const); ok && cst.Value != nil && cst.Value.ExactString() == "false" {
+							okP = true
+						}
+					}
+				}
+			}
+			c.check(okP, "shutdown-checked-first", relName(f)+"#cbch-send", op.Sel.Pos(), "a non-blocking poll of monDone that returns false dominates the blocking select with the queue send", "the blocking select offers the send on the (buffered) callback queue together with the shutdown channel without polling the shutdown channel first: after the monitor has exited both are ready and the call reports success at random")
+		}
+	}
+	if n == 0 {
+		c.bad("shutdown-checked-first", "cbch", 0, "no blocking send on the callback queue found in a select")
 	}
 }
